@@ -247,9 +247,11 @@ pub fn model(data: &[u8], pos: usize, op: Op, be: bool) -> Expect {
                     return Expect::Open("unreal2 latin-1 string longer than the packet");
                 }
                 let body = &rest[1 .. 1 + l];
-                if body[l - 1] != 0 || body[.. l - 1].contains(&0) {
-                    return Expect::Open("unreal2 latin-1 string whose NUL is not exactly its last byte");
-                }
+                // the Latin-1 form is NUL-delimited: a NUL before the declared end ends the string there
+                let (body, l) = match body.iter().position(|b| *b == 0) {
+                    Some(z) => (&body[..= z], z + 1),
+                    None => return Expect::Open("unreal2 latin-1 string without a NUL inside its declared length"),
+                };
                 if body.iter().any(|b| (0x80 ..= 0x9f).contains(b)) {
                     return Expect::Open("unreal2 latin-1 bytes 80-9f (windows-1252 vs latin-1)");
                 }
@@ -697,7 +699,23 @@ impl Check for C17 {
                 2 => cx.rng.usize(65, 300),
                 _ => cx.rng.usize(0, 12),
             };
-            let data: Vec<u8> = match cx.rng.below(3) {
+            let class = cx.rng.below(4);
+            let data: Vec<u8> = match class {
+                3 => {
+                    // a length-prefixed, NUL-terminated string whose length byte and terminators disagree: NULs before
+                    // the declared end, and a NUL exactly at (or next to) the declared end
+                    let m = cx.rng.usize(3, 40);
+                    let l = cx.rng.usize(1, m - 1);
+                    let mut body: Vec<u8> = (0 .. m).map(|_| if cx.rng.chance(1, 6) { 0 } else { cx.rng.range(0x20, 0x7e) as u8 }).collect();
+                    match cx.rng.below(3) {
+                        0 => body[l] = 0,
+                        1 => body[l - 1] = 0,
+                        _ => {}
+                    }
+                    let mut v = vec![if cx.rng.chance(1, 5) { 0x80 | l as u8 } else { l as u8 }];
+                    v.extend(body);
+                    v
+                }
                 0 => (0 .. n).map(|_| *cx.rng.pick(&ALPHABET)).collect(),
                 1 => cx.rng.bytes(n),
                 _ => {
@@ -714,7 +732,8 @@ impl Check for C17 {
                     v
                 }
             };
-            let ops = self.ops.clone();
+            // the disagreeing strings are mostly read as what they are
+            let ops = if class == 3 && cx.rng.chance(3, 4) { vec![Op::Unreal2, Op::Unreal2, Op::Unreal2, Op::U8, Op::Remaining, Op::Utf8(None), Op::Utf8Len(None)] } else { self.ops.clone() };
             let depth = cx.rng.usize(1, 12);
             random_sequence(cx, &data, &ops, depth);
             return;
